@@ -918,6 +918,69 @@ def run_timewarp(files):
                    f'({sorted(set(TimeWarp.hits))})')
 
 
+# ------------------------------------------------------------------------------------------------ stragglers across calls
+def cross_call_cases(files):
+    """two consecutive fan-out calls of the same kind on ONE blob reader: call A has one failing range read and one that is
+    merely slow (it completes AFTER A has raised unless A waits for it); call B has no fault at all, but one slow read, so
+    that B is still assembling when A's straggler lands.  A must raise, B must return the true data: whatever a failed
+    call leaves running must not reach the buffers of a later call."""
+    cases = []
+    for label, path, kind in files:
+        if kind != '3d':
+            continue
+        r0 = SgzReader(path)
+        n_xl, n_s = r0.n_xlines, r0.n_samples
+        r0.close()
+        pairs = [('read_crossline', (0,), (n_xl - 1,)), ('read_zslice', (0,), (n_s - 1,)),
+                 ('read_crossline', (n_xl - 1,), (min(5, n_xl - 1),)), ('read_zslice', (n_s - 1,), (min(5, n_s - 1),))]
+        for name, args_a, args_b in (pairs[:2] if QUICK and not a.search else pairs):
+            plans, want_b = [], None
+            for args in (args_a, args_b):
+                h = FakeBlob(path)
+                r = SgzReader(h)
+                n0 = len(h.order)
+                want_b = canon(do_call(r, name, args))
+                plans.append(list(h.order[n0:]))
+                r.close()
+            if len(plans[0]) < 2 or len(plans[1]) < 2 or set(plans[0]) & set(plans[1]):
+                continue            # not fan-outs, or the two calls share a range (same group of lines)
+            cases.append((label, path, name, args_a, args_b, plans[0], plans[1], want_b))
+    return cases
+
+
+def run_cross_call_case(c):
+    label, path, name, args_a, args_b, plan_a, plan_b, want_b = c
+    lo_a, hi_a = min(plan_a), max(plan_a)
+    info = {'file': label, 'backend': 'blob', 'call_A': [name, list(args_a)], 'call_B': [name, list(args_b)],
+            'A_fails_at': list(lo_a), 'A_straggler': [list(hi_a), 0.3], 'B_slow_read': [list(min(plan_b)), 0.8]}
+    h = FakeBlob(path)
+    r = SgzReader(h)
+    h.faults = {lo_a: 'exc'}
+    h.slow = {hi_a: 0.3, min(plan_b): 0.8}
+    try:
+        do_call(r, name, args_a)
+        R.violation('oracle', info, 'call A: a range read failed with an exception and the call returned a value')
+    except Exception:
+        pass
+    try:
+        got = canon(do_call(r, name, args_b))
+        if got != want_b:
+            R.violation('oracle', info, 'call B had no failing range read but returned data that differs from the true data: a range '
+                                        'read left over from the failed call A reached B\'s buffer')
+    except Exception as e:
+        R.violation('oracle', info, f'call B had no failing range read but raised {type(e).__name__}: {e}')
+    REAL_SLEEP(0.35)
+    R.case(('cross-call', label, name, tuple(args_a), tuple(args_b)), sample=info if name == 'read_crossline' else None)
+    R.count('cross_call_stragglers')
+
+
+def run_cross_call(files):
+    cases = cross_call_cases(files)
+    with concurrent.futures.ThreadPoolExecutor(max_workers=8) as ex:
+        list(ex.map(run_cross_call_case, cases))
+    R.notes.append(f'stragglers across calls: {len(cases)} (failing call A with a slow read, fault-free call B) pairs on one blob reader')
+
+
 # ------------------------------------------------------------------------------------------------ generated fan-out terms
 def run_slots(label, path):
     """the range reads and destination slots that Gen/Faults.v records for the three I/O fan-outs, evaluated in Coq for
@@ -993,6 +1056,7 @@ try:
     run_blob_preload('np_big', big, '3d', [('read_volume', ()), ('read_inline', (57,)), ('read_crossline', (129,)), ('read_zslice', (150,)),
                                              ('read_subvolume', (40, 90, 3, 127, 100, 299)), ('get_trace', (7777,))])
     run_timewarp(files)
+    run_cross_call(files)
     # ---- the model on the same inputs
     if not a.no_model and MODEL_CASES:
         # group cases by (backend, L, plan) to keep terms short
